@@ -1076,6 +1076,101 @@ def transition_facts(src):
     return out
 
 
+def sad_facts(src, csrc, xsrc):
+    """C10: EVERY statement of the daemon that changes a child_sas list or asks the kernel to add / delete an SA must
+    be one of the primitive operations of coq/ikesa/Sad.v, at a known site and in the known order (fail closed)."""
+    found = []
+
+    def scan(s, fname):
+        for cls in [n for n in s.tree.body if isinstance(n, ast.ClassDef)]:
+            for fn in [n for n in cls.body if isinstance(n, ast.FunctionDef)]:
+                for n in ast.walk(fn):
+                    t = None
+                    if isinstance(n, ast.Assign) and any(ast.unparse(x).endswith('.child_sas') for x in n.targets):
+                        t = ast.unparse(n)
+                    elif isinstance(n, ast.AugAssign) and ast.unparse(n.target).endswith('.child_sas'):
+                        t = ast.unparse(n)
+                    elif isinstance(n, ast.Call):
+                        d = dotted_name(n.func) or ''
+                        if re_match(r'.*\.child_sas\.(append|remove|clear|insert|pop|extend|sort|reverse)$', d) or \
+                                re_match(r'(xfrm\.)?Xfrm\.(create_child_sa|delete_child_sa|create_sa|delete_sa|flush_sas)$', d) \
+                                or (fname == 'xfrm.py' and re_match(r'cls\.(create_sa|delete_sa)$', d)) \
+                                or d.endswith('.delete_child_sas'):
+                            t = ast.unparse(n)
+                    elif isinstance(n, (ast.Delete,)) and 'child_sas' in ast.unparse(n):
+                        t = ast.unparse(n)
+                    if t is not None:
+                        found.append((fname, f'{cls.name}.{fn.name}', n.lineno, t))
+    scan(src, 'ikesa.py')
+    scan(csrc, 'ikesacontroller.py')
+    scan(xsrc, 'xfrm.py')
+    found.sort(key=lambda x: (x[0], x[2]))
+    got = [(a, b, d) for a, b, c, d in found]
+    want = [
+        ('ikesa.py', 'IkeSa.__init__', 'self.child_sas = []'),
+        ('ikesa.py', 'IkeSa.delete_child_sas', 'xfrm.Xfrm.delete_child_sa(self, child_sa)'),
+        ('ikesa.py', 'IkeSa.delete_child_sas', 'self.child_sas.clear()'),
+        ('ikesa.py', 'IkeSa._process_create_child_sa_negotiation_req',
+         'xfrm.Xfrm.create_child_sa(self, child_sa, child_sa_keyring, is_initiator=False)'),
+        ('ikesa.py', 'IkeSa._process_create_child_sa_negotiation_req', 'self.child_sas.append(child_sa)'),
+        ('ikesa.py', 'IkeSa._process_create_child_sa_negotiation_res', 'self.child_sas.append(self.creating_child_sa)'),
+        ('ikesa.py', 'IkeSa._process_create_child_sa_negotiation_res',
+         'xfrm.Xfrm.create_child_sa(self, self.creating_child_sa, child_sa_keyring, is_initiator=True)'),
+        ('ikesa.py', 'IkeSa.process_informational_request', 'xfrm.Xfrm.delete_child_sa(self, child_sa)'),
+        ('ikesa.py', 'IkeSa.process_informational_request', 'self.child_sas.remove(child_sa)'),
+        ('ikesa.py', 'IkeSa.process_create_child_sa_request', 'self.new_ike_sa.child_sas = self.child_sas'),
+        ('ikesa.py', 'IkeSa.process_create_child_sa_request', 'self.child_sas = []'),
+        ('ikesa.py', 'IkeSa.process_create_child_sa_response', 'self.new_ike_sa.child_sas = self.child_sas'),
+        ('ikesa.py', 'IkeSa.process_create_child_sa_response', 'self.child_sas = []'),
+        ('ikesa.py', 'IkeSa.process_informational_response', 'xfrm.Xfrm.delete_child_sa(self, self.deleting_child_sa)'),
+        ('ikesa.py', 'IkeSa.process_informational_response', 'self.child_sas.remove(self.deleting_child_sa)'),
+        ('ikesacontroller.py', 'IkeSaController.__init__', 'xfrm.Xfrm.flush_sas()'),
+        ('ikesacontroller.py', 'IkeSaController.dispatch_message', 'ike_sa.delete_child_sas()'),
+        ('ikesacontroller.py', 'IkeSaController.main_loop', 'ikesa.delete_child_sas()'),
+        ('ikesacontroller.py', 'IkeSaController.close', 'xfrm.Xfrm.flush_sas()'),
+    ]
+    got_main = [g for g in got if g[0] != 'xfrm.py']
+    if got_main != want:
+        extra = [g for g in got_main if g not in want]
+        missing = [w for w in want if w not in got_main]
+        raise TranslateError('a statement that changes child_sas or the kernel SAD is not one of the known primitive '
+                             f'operations (or their order changed): unexpected {extra[:3]}, missing {missing[:3]}')
+    # the bodies of the primitives in xfrm.py
+    t = ast.unparse(xsrc.func('Xfrm.create_child_sa'))
+    i1 = t.find('cls.create_sa(src_selector, dst_selector')
+    i2 = t.find('try:\n        cls.create_sa(dst_selector, src_selector')
+    i3 = t.find('except NetlinkError:\n        cls.delete_sa(ike_sa.peer_addr, ipsec_proto, child_sa.outbound_spi)\n        raise')
+    if not (0 <= i1 < i2 < i3):
+        raise TranslateError('xfrm.py: Xfrm.create_child_sa is no longer: outbound SA, inbound SA, undo the outbound one if '
+                             'the inbound one is refused')
+    t = [ast.unparse(x) for x in _stmts(xsrc.func('Xfrm.delete_child_sa'))]
+    if t[-2:] != ['cls.delete_sa(ike_sa.peer_addr, ipsec_protocol, child_sa.outbound_spi)',
+                  'cls.delete_sa(ike_sa.my_addr, ipsec_protocol, child_sa.inbound_spi)']:
+        raise TranslateError('xfrm.py: Xfrm.delete_child_sa no longer deletes (peer_addr, outbound SPI) and (my_addr, inbound SPI)')
+    t = ast.unparse(xsrc.func('Xfrm.delete_sa'))
+    if 'except NetlinkError as ex:' not in t or 'raise' in t.split('except NetlinkError as ex:')[1]:
+        raise TranslateError('xfrm.py: Xfrm.delete_sa must ignore a refusal of the kernel')
+    # guards of the deletions: only CHILD_SAs that are tracked
+    t = ast.unparse(src.func('IkeSa.process_informational_response'))
+    if 'if self.deleting_child_sa not in self.child_sas:' not in t:
+        raise TranslateError('ikesa.py: process_informational_response must check that the CHILD_SA is still tracked')
+    t = ast.unparse(src.func('IkeSa.process_informational_request'))
+    if 'child_sa = self.get_child_sa(del_spi)' not in t or \
+            'if child_sa is not None and child_sa.proposal.protocol_id == delete_payload.protocol_id:' not in t:
+        raise TranslateError('ikesa.py: process_informational_request must look the CHILD_SA up before deleting it')
+    # hand-over on the responder only after the negotiation of the new IKE_SA succeeded (F5)
+    t = ast.unparse(src.func('IkeSa.process_create_child_sa_request'))
+    if not (0 <= t.find('self.new_ike_sa._process_ike_sa_negotiation_request(') < t.find('self.new_ike_sa.child_sas = self.child_sas')):
+        raise TranslateError('ikesa.py: the responder must hand the CHILD_SAs over only after the negotiation succeeded')
+    return ['S_RespInstall', 'S_InitInstall', 'S_DeleteChild', 'S_Handover', 'S_Handover', 'S_DeleteChild', 'S_Teardown',
+            'S_Teardown', 'S_Restart', 'S_Restart']
+
+
+def re_match(pat, text):
+    import re
+    return re.match(pat, text) is not None
+
+
 def translate(ctx=None):
     src = pyast.Src(os.path.join(core.REPO, 'ikesa.py'))
     msrc = pyast.Src(os.path.join(core.REPO, 'message.py'))
@@ -1092,6 +1187,7 @@ def translate(ctx=None):
     auth = auth_facts(src, msrc)
     mir = mirror_facts(src, pyast.Src(os.path.join(core.REPO, 'xfrm.py')))
     trn = transition_facts(src)
+    sadsites = sad_facts(src, csrc, pyast.Src(os.path.join(core.REPO, 'xfrm.py')))
     adm = admission_facts(src)
     ctl = controller_facts(csrc, src)
     exd = dict(exch)
@@ -1215,6 +1311,10 @@ def translate(ctx=None):
     for f in ('process_acquire', 'process_expire', 'check_retransmission_timer', 'check_dead_peer_detection_timer',
               'check_rekey_ike_sa_timer', '_process_request', '_process_response'):
         L.append(f'Definition assigns_{f.strip("_")} : list Z := [' + '; '.join(map(str, trn['assigns'][f])) + '].')
+    L.append('\n(* C10: the sites of the daemon that change child_sas or the kernel SAD, each an operation of Sad.v '
+             '(complete list, checked against the source by the translator) *)')
+    L.append('Inductive sad_site := S_RespInstall | S_InitInstall | S_DeleteChild | S_Handover | S_Teardown | S_Restart.')
+    L.append('Definition sad_sites : list sad_site := [' + '; '.join(sadsites) + '].')
     L.append('\n(* C09: collision rules (RFC 7296 2.25) of the CREATE_CHILD_SA request handlers, in source order *)')
     L.append(f'Definition child_request_while_ike_busy (st : Z) : bool := {trn["child_busy"]}.')
     L.append(f'Definition rekey_unknown_child (found : bool) : bool := {trn["rekey_not_found"]}.')
